@@ -6,7 +6,13 @@ SPEC = {
     ],
     "assumptions": [
         "mapping trees and diff trees have pairwise distinct keys per map (IndexMap invariant) and every names row has one cell per namespace (const generic N)",
-        "the target namespace of apply_to is not the first namespace (Names::change_name refuses it; keys live there)",
+        "the target namespace of apply_to is not the first namespace (Names::change_name refuses it; keys live there); with the first namespace as target the model still follows the code (correspondence stream arbitrary-first-namespace), but no exactness theorem is stated",
+        "inverse law: A and B are well-formed (Quill.Mappings.wf) two-namespace sets with the same, pairwise different namespace names, and every entry has a second-namespace name (named) - exactly the domain on which diff is defined (C04_diff_ok_iff)",
+        "text form: names are valid per duke's checked constructors and contain no TAB/LF/CR, parameter indices fit usize, the mappings-level comment is the same on both sides (the text form has no line for it)",
     ],
-    "stated_not_proved": [],
+    "stated_not_proved": [
+        "diff_apply_full (coq/C04/Theory2.v): forall A B, inverse_hyps A B -> inverse_law A B  -- refuted by C04_diff_apply_refuted (known finding F3); proved restriction: C04_diff_apply_partial (f3_class A B = false)",
+        "text_inverse_full (coq/C04/TextTheory3.v): forall A B, text_hyps A B -> f3_class A B = false -> text_inverse_law A B  -- refuted by C04_text_inverse_refuted (known finding F4); proved restriction: C04_text_inverse_partial (f4_class A B = false)",
+        "mequiv (lookup-based equality up to the order of every map, Prop) is not linked to the boolean Quill.Mappings.equivb (sorted canonical form); the harness compares with its own canonical form",
+    ],
 }
